@@ -1,3 +1,5 @@
+import json
+
 from inspect import getmodule
 from collections import abc
 from pathlib import Path
@@ -170,6 +172,9 @@ class Experiment:
         CobaContext.logger.log("Experiment Started")
 
         if result_file and Path(result_file).exists():
+            self._drop_torn_tail(result_file)
+
+        if result_file and Path(result_file).exists() and Path(result_file).stat().st_size > 0:
             CobaContext.logger.log("Restoring Results")
             restored = Result.from_file(result_file)
         else:
@@ -207,6 +212,22 @@ class Experiment:
         del CobaContext.store['experiment_seed']
 
         return Pipes.join(source,decode,result).read()
+
+    @staticmethod
+    def _drop_torn_tail(result_file:str) -> None:
+        #A killed experiment can leave a final record that was only partly written (or that is
+        #missing its newline). We remove/terminate it so we can restore and then append cleanly.
+        if ".gz" in result_file: return
+
+        with open(result_file,'rb+') as f:
+            data = f.read()
+            tail = data[data.rfind(b'\n')+1:]
+            if not tail.strip(): return
+            try:
+                json.loads(tail)
+                f.write(b'\n')
+            except ValueError:
+                f.truncate(len(data)-len(tail))
 
     def _parse_init_args(self,*args,**kwargs) -> Tuple[Sequence[Tuple[Environment,Learner]], Evaluator, Optional[str]]:
         #we know this with 100% certainty
